@@ -100,7 +100,7 @@ Theorem C08_hk_periodic :
   forall (es cr : list (Z * Z)) (J : list Z) (col : option (list Z)) (u : list Z) (qa qb a b : Z),
   hk_gauss es cr J col u (qa + 4) qb a b = hk_gauss es cr J col u qa qb a b /\
   hk_gauss es cr J col u qa (qb + 4) a b = hk_gauss es cr J col u qa qb a b.
-Proof. intros. split; [apply hk_gauss_periodic_a | apply hk_gauss_periodic_b]. Qed.
+Proof. exact hk_periodic_claim. Qed.
 Print Assumptions C08_hk_periodic.
 
 (* the same instance is Hermitian and equals the model of majorana_hamiltonian at k = 0 *)
@@ -108,7 +108,7 @@ Theorem C08_hk_gauss_hermitian_gamma :
   forall (es cr : list (Z * Z)) (J : list Z) (col : option (list Z)) (u : list Z) (qa qb a b : Z),
   gconj (hk_gauss es cr J col u qa qb b a) = hk_gauss es cr J col u qa qb a b /\
   ((length es <= length cr)%nat -> hk_gauss es cr J col u 0 0 a b = ham_gauss es J col u a b).
-Proof. intros. split; [apply hk_gauss_hermitian | apply hk_gauss_gamma]. Qed.
+Proof. exact hk_gauss_hermitian_gamma_claim. Qed.
 Print Assumptions C08_hk_gauss_hermitian_gamma.
 
 (* Clause "the analysis helpers report the mean of the lower half of the eigenvalues over the sampled grid,
@@ -133,7 +133,7 @@ Print Assumptions C08_analyse_mean.
 Theorem C08_lower_half :
   forall es : list Q, length (lower_half es) = Nat.div (length es) 2 /\
                       es = lower_half es ++ skipn (Nat.div (length es) 2) es.
-Proof. intros. split; [apply lower_half_length | apply lower_half_prefix]. Qed.
+Proof. exact lower_half_claim. Qed.
 Print Assumptions C08_lower_half.
 
 Theorem C08_analyse_gap :
@@ -149,9 +149,7 @@ Theorem C08_gap_grid :
   (forall i, nth i (gaps spectra) None = qabs_min (nth i spectra [])) /\
   (forall l m, qabs_min l = Some m ->
      (forall x, In x l -> (m <= Qabs x)%Q) /\ (exists x, In x l /\ (m == Qabs x)%Q)).
-Proof.
-  intros. destruct (gaps_spec spectra) as (H1 & H2). split; [exact H1|]. split; [exact H2|]. exact qabs_min_spec.
-Qed.
+Proof. exact gap_grid_claim. Qed.
 Print Assumptions C08_gap_grid.
 
 (* Non-vacuity: the hypotheses of C08_bloch_intertwines hold for the 4-site honeycomb cell
